@@ -8,6 +8,8 @@
 //! is significantly simpler than Ninja and we get free behaviors like parallel
 //! parsing of depfiles.
 
+#[cfg(n2_verif)]
+use crate::verif::shim as std;
 use crate::{
     depfile,
     graph::{Build, BuildId, RspFile},
